@@ -31,12 +31,13 @@ type Monitors struct {
 	prevOvm  *ovmSnap
 	prevSubs map[int64]*subSnap
 	subReleased map[int64]*big.Int
+	subSched    map[int64][][2]*big.Int // unlock schedule as deposited (unlock time, amount) per accepted create / top-up
 	subDirect   map[int64]*big.Int
 	grantExp    map[[3]int64]int64 // (granter, grantee, kind) -> expiry of the grant as it was given
 }
 
 func NewMonitors() *Monitors {
-	return &Monitors{phStep: -99, subReleased: map[int64]*big.Int{}, subDirect: map[int64]*big.Int{}, grantExp: map[[3]int64]int64{}}
+	return &Monitors{phStep: -99, subReleased: map[int64]*big.Int{}, subSched: map[int64][][2]*big.Int{}, subDirect: map[int64]*big.Int{}, grantExp: map[[3]int64]int64{}}
 }
 
 func attr(ev abci.Event, key string) string {
@@ -461,6 +462,16 @@ func (m *Monitors) c11(c *Chain, o Op, res string, prevBal map[string]*big.Int) 
 		return v
 	}
 	switch o.Kind {
+	case "SCRE", "STOP":
+		// the schedule as deposited: every accepted create / top-up adds its (unlock time, amount) entries (independent of how the
+		// module stores them)
+		for id, x := range cur {
+			if c.AccID(x.owner) == o.Owner {
+				for _, l := range o.Locks {
+					m.subSched[id] = append(m.subSched[id], [2]*big.Int{new(big.Int).Set(l[0]), new(big.Int).Set(l[1])})
+				}
+			}
+		}
 	case "SWDU":
 		// released by unlocked-balance withdrawals never exceeds what has unlocked
 		for id, x := range cur {
@@ -480,6 +491,18 @@ func (m *Monitors) c11(c *Chain, o Op, res string, prevBal map[string]*big.Int) 
 			for ts, a := range x.locks {
 				if int64(ts) < c.Time {
 					unlocked.Add(unlocked, a)
+				}
+			}
+			// ... nor what has unlocked according to the schedule as it was deposited
+			if sched, ok := m.subSched[id]; ok {
+				u2 := big.NewInt(0)
+				for _, l := range sched {
+					if l[0].Int64() < c.Time {
+						u2.Add(u2, l[1])
+					}
+				}
+				if u2.Cmp(unlocked) < 0 {
+					unlocked = u2
 				}
 			}
 			if m.subReleased[id].Cmp(unlocked) > 0 {
